@@ -19,7 +19,7 @@ func init() {
 }
 
 func (w *world) setpool(env string, id, amount, total uint64, pts []*lib.PoolPoints) {
-	p := showPoints(pts)
+	p := showPointsFull(pts)
 	if p == "" {
 		p = "-"
 	}
@@ -426,4 +426,95 @@ func (w *world) randomRemote(env string, c uint64) *lib.DexBatch {
 		b.TotalPoolPoints = tot
 	}
 	return b
+}
+
+// cappedCase: a liquidity pool one slot below MaxLiquidityProviders (5000); batches that bring several new
+// providers exercise handleCappedBatchDeposit: incumbents first, newcomers ranked by amount (ties by hash),
+// the free slot, eviction of the lowest holder, rejection (with refund on the local side).
+func (w *world) cappedCase(rounds int) {
+	w.chains = []uint64{2}
+	w.initEnv("R", 1, 1, 0, 2)
+	for i, a := range w.addrs {
+		amt := uint64(w.r.Int63n(1 << 50))
+		if i == 0 {
+			amt = 1 << 60
+		}
+		w.fund("R", a, amt)
+	}
+	nLP := lib.MaxLiquidityProviders - 1 - w.r.Intn(3)
+	pts := []*lib.PoolPoints{{Address: dead, Points: uint64(1 + w.r.Intn(1_000_000))}}
+	tot := pts[0].Points
+	base := uint64(1 + w.r.Intn(5000))
+	for i := 1; i < nLP; i++ {
+		a := make([]byte, 20)
+		a[0] = 0xC0
+		a[18], a[19] = byte(i>>8), byte(i)
+		p := base + uint64(w.r.Intn(3000))
+		if w.r.Intn(10) == 0 {
+			p = base // ties for the lowest
+		}
+		pts = append(pts, &lib.PoolPoints{Address: a, Points: p})
+		tot += p
+	}
+	// some of the case's ordinary users are incumbents
+	for _, a := range w.addrs[:2] {
+		p := uint64(1 + w.r.Intn(100_000))
+		pts = append(pts, &lib.PoolPoints{Address: a, Points: p})
+		tot += p
+	}
+	pool := uint64(1_000_000 + w.r.Int63n(1<<40))
+	w.setpool("R", 2+liquidityAdd, pool, tot, pts)
+	newAddr := func(k int) []byte {
+		a := make([]byte, 20)
+		a[0] = 0xE0
+		a[19] = byte(k)
+		return a
+	}
+	nn := 0
+	for r := 0; r < rounds; r++ {
+		if w.r.Intn(2) == 0 {
+			// remote side: deposits arrive in the counter chain's batch (no token movement here)
+			b := &lib.DexBatch{Committee: 1, PoolSize: uint64(1_000_000 + w.r.Int63n(1<<40)), ReceiptHash: drv.Bytes(w.r, 32)}
+			lb, _ := w.envs["R"].SM.GetDexBatch(2, true)
+			w.envs["R"].SM.ResetCaches()
+			if lb != nil && !lb.IsEmpty() {
+				b.ReceiptHash = lb.Hash()
+				for range lb.Orders {
+					b.Receipts = append(b.Receipts, 0)
+				}
+			}
+			for i := 1 + w.r.Intn(5); i > 0; i-- {
+				var a []byte
+				switch w.r.Intn(5) {
+				case 0:
+					a = w.addr()
+				case 1:
+					a = pts[1+w.r.Intn(len(pts)-1)].Address
+				default:
+					nn++
+					a = newAddr(nn % 40)
+				}
+				amt := uint64(1 + w.r.Int63n(1<<uint(10+w.r.Intn(30))))
+				if w.r.Intn(8) == 0 {
+					amt = 0
+				}
+				b.Deposits = append(b.Deposits, &lib.DexLiquidityDeposit{Amount: amt, Address: a, OrderId: w.freshID()})
+				if w.r.Intn(3) == 0 { // split deposit of the same provider
+					b.Deposits = append(b.Deposits, &lib.DexLiquidityDeposit{Amount: amt/2 + 1, Address: a, OrderId: w.freshID()})
+				}
+			}
+			w.dexbatch("R", 2, false, b)
+			w.o.Count("capped:remote-deposit-batch")
+		} else {
+			// local side: users deposit, the batch locks, the counter chain answers with the matching hash
+			for i := 1 + w.r.Intn(4); i > 0; i-- {
+				w.deposit("R", 2, w.addr(), uint64(1+w.r.Int63n(1<<uint(10+w.r.Intn(30)))), w.freshID())
+			}
+			w.dexbatch("R", 2, false, &lib.DexBatch{Committee: 1, PoolSize: uint64(1_000_000 + w.r.Int63n(1<<40))})
+			w.o.Count("capped:local-deposit-batch")
+		}
+		if w.r.Intn(3) == 0 {
+			w.endblock("R")
+		}
+	}
 }
